@@ -72,9 +72,9 @@ partial def clientMain : IO Unit := do
     clientLoop o c cc h out (cinit o c (genConn 0))
     clientMain
   | "retry" :: m :: outs =>
-    match m.toNat?, outs.mapM parseAttempt with
+    match m.toInt?, outs.mapM parseAttempt with
     | some m, some outs =>
-      let r := retry m 0 outs
+      let r := retryInt m outs
       out.putStrLn s!"attempts={r.1} result={showAttempt r.2}"
     | _, _ => out.putStrLn "bad-retry"
     out.flush
